@@ -90,7 +90,7 @@ def gen_cases():
     drv = os.path.join(ROOT, "lean/.lake/build/bin/driver")
     for p in PROPS:
         with open(os.path.join(CASES, "cases", p + ".jsonl"), "w") as f:
-            subprocess.run([drv, "gen", p, "quick", "1"], stdout=f, check=True)
+            subprocess.run([drv, "gen", p, "quick", os.environ.get("MUT_SEED", "1")], stdout=f, check=True)
     # the clean tree's regenerated files
     g = os.path.join(CASES, "gen-clean"); os.makedirs(g, exist_ok=True)
     sh([os.path.join(ROOT, "extract", "extract"), "/repo", g])
@@ -219,7 +219,7 @@ def retest(group, props):
     drv = os.path.join(ROOT, "lean/.lake/build/bin/driver")
     for p in props:
         with open(os.path.join(CASES, "cases", p + ".jsonl"), "w") as f:
-            subprocess.run([drv, "gen", p, "quick", "1"], stdout=f, check=True)
+            subprocess.run([drv, "gen", p, "quick", os.environ.get("MUT_SEED", "1")], stdout=f, check=True)
     td = os.path.join(RES, "tests")
     ms = json.load(open(os.path.join(td, group + "_mutants.json")))
     cl = {c["idx"]: c for c in json.load(open(os.path.join(td, group + "_classification.json")))}
